@@ -309,21 +309,20 @@ def hub_inputs(tier, rng):
     for i in range(4 if tier == "quick" else 16):
         shape = ("node_in_many_triangles", "node_in_many_4sets", "pair_in_many_hyperedges", "pair_in_many_hyperedges")[i % 4]
         if shape == "node_in_many_triangles":       # node 1 in m >= 256 hyperedges of order 2
-            n = rng.randint(25, 30)
-            m = rng.randint(256, min(300, (n - 1) * (n - 2) // 2))
+            n = 25
+            m = rng.randint(256, 276)
             es = [(1,) + p for p in rng.sample(list(itertools.combinations(range(2, n + 1), 2)), m)]
             es += random_edges(n, rng, m=4)         # a few others of any size
         elif shape == "node_in_many_4sets":         # node 1 in m >= 256 hyperedges of order 3
-            n = rng.randint(14, 16)
+            n = rng.randint(14, 15)
             m = rng.randint(256, 286)
             es = [(1,) + p for p in rng.sample(list(itertools.combinations(range(2, n + 1), 3)), m)]
             es += random_edges(n, rng, m=4)
-        else:                                       # nodes 1, 2 together in >= 256 hyperedges of order 3, ~300 in all
-            n = rng.randint(26, 30)
-            es = [(1, 2, j) for j in range(3, n + 1)]
-            quads = list(itertools.combinations(range(3, n + 1), 2))
-            es += [(1, 2) + p for p in rng.sample(quads, rng.randint(256, min(len(quads), 330 - len(es))))]
-            es += [(1, 2)]
+        else:                                       # nodes 1 and 2 together in >= 256 hyperedges of order 4, ~290 in all
+            n = rng.randint(15, 16)
+            fives = list(itertools.combinations(range(3, n + 1), 3))
+            es = [(1, 2) + p for p in rng.sample(fives, rng.randint(256, min(len(fives), 275)))]
+            es += [(1, 2, j) for j in range(3, n + 1)] + [(1, 2)]
         out.append((shape, n, sorted(set(es)), shape.startswith("pair") and i % 8 == 3, FAMS[(i + i // 4) % 4]))
     return out
 
